@@ -85,6 +85,7 @@ type vtRun struct {
 	termSeen int32
 	forced   bool
 	sink     *bufio.Writer // serial mode: every line is written and flushed at once (a process crash loses nothing)
+	gone     bool          // the watchdog gave the case up: later lines are dropped
 }
 
 func vtJSON(v any) string {
@@ -104,6 +105,10 @@ func (r *vtRun) emit(ev string, kv ...any) {
 	}
 	sb.WriteString("}")
 	r.mu.Lock()
+	if r.gone {
+		r.mu.Unlock()
+		return
+	}
 	r.lines = append(r.lines, sb.String())
 	if r.sink != nil {
 		r.sink.WriteString(sb.String() + "\n")
@@ -425,10 +430,42 @@ func (r *vtRun) consume(sr *schema.StreamReader[[]*schema.Message]) {
 
 // ------------------------------------------------------------------------------------------------ one case
 
+const vtCaseTimeout = 4 * time.Second
+const vtMaxHangs = 20
+
+var vtHangs int32
+
+// vtRunCase runs one case under a watchdog.  The gates make a case take microseconds; a case that is still running after
+// vtCaseTimeout is recorded as the observation `hang`, its goroutines are abandoned (gates opened) and the harness goes on.
 func vtRunCase(c *vtCase, sink *bufio.Writer) []string {
 	n := len(c.Calls)
 	r := &vtRun{c: c, sink: sink, free: make(chan struct{}), callDone: make(chan struct{}), inv: make([]*vtInv, n), started: make([]chan struct{}, n),
 		taken: make([]bool, n), consumed: make([]int32, n)}
+	done := make(chan []string, 1)
+	go func() { done <- vtRunCaseBody(r) }()
+	select {
+	case ls := <-done:
+		return ls
+	case <-time.After(vtCaseTimeout):
+	}
+	atomic.AddInt32(&vtHangs, 1)
+	r.openAll()
+	r.mu.Lock()
+	defer r.mu.Unlock()
+	r.gone = true
+	for _, l := range []string{`{"ev":"hang","after_ms":` + vtJSON(int(vtCaseTimeout/time.Millisecond)) + `}`, `{"ev":"end","forced":false,"note":"case abandoned by the watchdog"}`} {
+		r.lines = append(r.lines, l)
+		if r.sink != nil {
+			r.sink.WriteString(l + "\n")
+			r.sink.Flush()
+		}
+	}
+	return append([]string(nil), r.lines...)
+}
+
+func vtRunCaseBody(r *vtRun) []string {
+	c := r.c
+	n := len(c.Calls)
 	for i := range r.inv {
 		r.inv[i] = &vtInv{call: i, gate: make(chan struct{}, 8), ack: make(chan struct{}, 8)}
 		r.started[i] = make(chan struct{})
@@ -588,6 +625,9 @@ func vtRunCase(c *vtCase, sink *bufio.Writer) []string {
 	}
 	r.mu.Lock()
 	defer r.mu.Unlock()
+	if r.gone {
+		return r.lines
+	}
 	last := `{"ev":"end","forced":` + vtJSON(forced) + `,"note":` + vtJSON(note) + `}`
 	r.lines = append(r.lines, last)
 	if r.sink != nil {
@@ -627,12 +667,17 @@ func TestVerifTools(t *testing.T) {
 			t.Fatal(err)
 		}
 		w := bufio.NewWriter(of)
+		replayed := 0
 		for _, c := range cases {
+			if atomic.LoadInt32(&vtHangs) >= vtMaxHangs {
+				break
+			}
 			vtRunCase(c, w)
+			replayed++
 		}
 		w.Flush()
 		of.Close()
-		fmt.Printf("VERIF-TOOLS cases=%d\n", len(cases))
+		fmt.Printf("VERIF-TOOLS cases=%d replayed=%d hangs=%d\n", len(cases), replayed, atomic.LoadInt32(&vtHangs))
 		return
 	}
 	results := make([][]string, len(cases))
@@ -645,7 +690,7 @@ func TestVerifTools(t *testing.T) {
 			defer wg.Done()
 			for {
 				i := int(atomic.AddInt64(&next, 1))
-				if i >= len(cases) {
+				if i >= len(cases) || atomic.LoadInt32(&vtHangs) >= vtMaxHangs {
 					return
 				}
 				results[i] = vtRunCase(cases[i], nil)
@@ -658,7 +703,11 @@ func TestVerifTools(t *testing.T) {
 		t.Fatal(err)
 	}
 	w := bufio.NewWriter(of)
+	replayed := 0
 	for _, ls := range results {
+		if ls != nil {
+			replayed++
+		}
 		for _, l := range ls {
 			w.WriteString(l)
 			w.WriteString("\n")
@@ -666,5 +715,5 @@ func TestVerifTools(t *testing.T) {
 	}
 	w.Flush()
 	of.Close()
-	fmt.Printf("VERIF-TOOLS cases=%d\n", len(cases))
+	fmt.Printf("VERIF-TOOLS cases=%d replayed=%d hangs=%d\n", len(cases), replayed, atomic.LoadInt32(&vtHangs))
 }
